@@ -134,7 +134,7 @@ class SDM():
         for sdm_item in self.sdm_list:
             if sdm_item.covalent:
                 # all_atoms[sdm_item.a1].molindex < 1 ...
-                if sdm_item.atom1.molindex < 1 or sdm_item.atom1.molindex > 6:
+                if sdm_item.atom1.molindex < 1:
                     continue
                 for n, symop in enumerate(self.shx.symmcards):
                     if sdm_item.atom1.part.n != 0 and sdm_item.atom2.part.n != 0 \
